@@ -166,10 +166,16 @@ func (t *prestateTracer) CaptureState(pc uint64, op vm.OpCode, gas, cost uint64,
 	case stackLen >= 4 && op == vm.CREATE2:
 		offset := stackData[stackLen-2]
 		size := stackData[stackLen-3]
-		// the step is traced before memory is expanded: the init code may reach beyond the current memory
-		init, err := tracers.GetMemoryCopyPadded(scope.Memory, int64(offset.Uint64()), int64(size.Uint64()))
-		if err != nil {
-			return
+		// the step is traced before memory is expanded: the init code may reach beyond the current memory.
+		// A range that starts inside memory is read with padding (Memory.GetCopy would slice out of range);
+		// one that starts at or beyond its end reads as empty, as Memory.GetCopy has it.
+		var init []byte
+		if off := int64(offset.Uint64()); off < 0 || off < int64(scope.Memory.Len()) {
+			var err error
+			init, err = tracers.GetMemoryCopyPadded(scope.Memory, off, int64(size.Uint64()))
+			if err != nil {
+				return
+			}
 		}
 		inithash := crypto.Keccak256(init)
 		salt := stackData[stackLen-4]
